@@ -432,10 +432,15 @@ const S3_RULES: &[&str] = &[
     "gh.com##.own",
 ];
 
+/// A second rule list for scenario 3: `LoadOther` swaps the engine between the two lists by
+/// loading the serialisation of the other one (every cosmetic answer changes).
+const S3_RULES_B: &[&str] = &["x.com##.other", "##.generic2", "##.generic3 > a", "x.com##+js(s2, w)", "@@||x.com^$generichide", "gh.com##.own2", "sub.x.com#@#.other"];
+
 #[derive(Clone, Copy, Debug, PartialEq)]
 enum Op3 {
     Cos(usize),
     Hidden,
+    LoadOther,
     SerDeSame,
     SerDeFresh,
     ReloadResources,
@@ -447,16 +452,19 @@ enum Op3 {
 const S3_URLS: &[&str] = &["https://x.com/", "https://sub.x.com/", "https://gh.com/", "https://other.org/"];
 
 fn s3_ops() -> Vec<Op3> {
-    vec![Op3::Cos(0), Op3::Cos(1), Op3::Cos(2), Op3::Cos(3), Op3::Hidden, Op3::SerDeSame, Op3::SerDeFresh, Op3::ReloadResources, Op3::AddDupResource, Op3::AlwaysDiscard, Op3::UseTagsX]
+    vec![Op3::Cos(0), Op3::Cos(1), Op3::Cos(2), Op3::Cos(3), Op3::Hidden, Op3::LoadOther, Op3::SerDeSame, Op3::SerDeFresh, Op3::ReloadResources, Op3::AddDupResource, Op3::AlwaysDiscard, Op3::UseTagsX]
 }
 fn is_query3(o: &Op3) -> bool {
     matches!(o, Op3::Cos(_) | Op3::Hidden)
 }
-fn s3_engine() -> Engine {
-    let mut e = Engine::from_rules_parametrised(S3_RULES, Default::default(), true, true);
+fn s3_engine_of(which: usize) -> Engine {
+    let mut e = Engine::from_rules_parametrised(if which == 0 { S3_RULES } else { S3_RULES_B }, Default::default(), true, true);
     e.set_regex_discard_policy(never());
     e.use_resources(resources());
     e
+}
+fn s3_engine() -> Engine {
+    s3_engine_of(0)
 }
 fn s3_query(e: &Engine, o: &Op3) -> Ans {
     match o {
@@ -472,22 +480,30 @@ fn s3_query(e: &Engine, o: &Op3) -> Ans {
 }
 struct S3 {
     ops: Vec<Op3>,
-    expected: Vec<Option<Ans>>,
+    /// expected[which rule list is loaded][op index]
+    expected: [Vec<Option<Ans>>; 2],
+    /// serialisations of fresh engines of the two rule lists
+    buffers: [Vec<u8>; 2],
 }
 fn s3_prepare() -> S3 {
     let ops = s3_ops();
-    let e = s3_engine();
-    let expected = ops.iter().map(|o| if is_query3(o) { Some(s3_query(&e, o)) } else { None }).collect();
-    S3 { ops, expected }
+    let exp = |which: usize| -> Vec<Option<Ans>> {
+        let e = s3_engine_of(which);
+        ops.iter().map(|o| if is_query3(o) { Some(s3_query(&e, o)) } else { None }).collect()
+    };
+    let expected = [exp(0), exp(1)];
+    let buffers = [s3_engine_of(0).serialize_raw().unwrap(), s3_engine_of(1).serialize_raw().unwrap()];
+    S3 { ops, expected, buffers }
 }
 fn s3_run(s: &S3, seq: &[usize], l: &mut Local) -> Option<(usize, String, String)> {
     let mut e = s3_engine();
+    let mut which = 0usize;
     for (step, &oi) in seq.iter().enumerate() {
         let o = s.ops[oi];
         l.transitions += 1;
         if is_query3(&o) {
             let got = catch(|| s3_query(&e, &o));
-            let exp = s.expected[oi].as_ref().unwrap();
+            let exp = s.expected[which][oi].as_ref().unwrap();
             l.compared += 1;
             l.hist(&format!("s3:{:?}:{}", o, exp.class()));
             match got {
@@ -497,7 +513,11 @@ fn s3_run(s: &S3, seq: &[usize], l: &mut Local) -> Option<(usize, String, String
             }
             continue;
         }
+        if o == Op3::LoadOther {
+            which = 1 - which;
+        }
         let r = catch(|| match o {
+            Op3::LoadOther => e.deserialize(&s.buffers[which]).unwrap(),
             Op3::SerDeSame => {
                 let b = e.serialize_raw().unwrap();
                 e.deserialize(&b).unwrap();
